@@ -268,6 +268,10 @@ def w6(ctx):
             n += 1
             parts = o.key.split("|")
             ctx.ob("W6", parts[1], parts[2], o.where, o.ok, o.detail)
+        elif o.rule == "D7" and o.nontrivial:
+            # an abortive close discards bytes the application (or the target) had already written: "every byte ... arrives"
+            parts = o.key.split("|")
+            ctx.ob("W6", parts[1], parts[2], o.where, o.ok, o.detail)
     ctx.floor("W6", "forward pumps", 4, n)
 
 
